@@ -549,3 +549,17 @@ Example C18_nonvacuous_go_mode_band :
   in64 5000000007 = true /\ start_in_band m = true /\ mode_shift_in_band (-9) m = true /\
   mode_magnitude_at_g 5000000007 m = (1, true) /\ mode_magnitude_at_g 5000000003 m = (3, true).
 Proof. vm_compute. repeat split. Qed.
+
+(* Print Assumptions for every theorem above that did not have its own line yet *)
+Print Assumptions C18_sum_overflow_refuted.
+Print Assumptions C18_shift_min_int64_refuted.
+Print Assumptions C18_active_at_overflow_refuted.
+Print Assumptions C18_seg_cut_never_writes_args.
+Print Assumptions C18_mode_shift_never_writes_args.
+Print Assumptions C18_funcs_all_modelled.
+Print Assumptions C18_cut_table_is_model_and_order.
+Print Assumptions C18_compare_v0_refuted.
+Print Assumptions C18_compare_v0_wrong_order.
+Print Assumptions C18_intersect_v0_refuted.
+Print Assumptions C18_mode_sum_v0_refuted.
+Print Assumptions C18_go_time_mode_out_of_band_refuted.
